@@ -54,6 +54,18 @@ def run_units(report, units, tier, rng, extra_after=None):
         for g in u.groups:
             if g not in groups:
                 groups.append(g)
+    # groups that the theorem files need through their imports but that the unit does not list (so that a check does not depend on what an earlier
+    # check left in coq/gen): they are translated too; a failure there is attributed to the units whose files import them
+    implied = {}
+    for u in units:
+        fl = u.props + u.thorough_props + [fd['refuted'] for fd in u.findings if fd.get('refuted')]
+        for g in H.groups_for(H.gen_requirements(fl) | set(c['gen'] for c in u.corr)):
+            if g not in u.groups:
+                implied.setdefault(u.name, []).append(g)
+                u.groups.append(g)
+            if g not in groups:
+                groups.append(g)
+    report.extra['implied_groups'] = implied
     trep = H.run_translator(groups) if groups else {}
     bad_groups = {g: r for g, r in trep.items() if r != 'ok'}
     for g, r in trep.items():
